@@ -139,6 +139,28 @@ def w_model(case):
                      'from the documented density' % lab, 'expected': exp,
                      'observed': got, 'behaviour': 'll_value'})
     outcome = [got]
+    # the caller changes its parameter / observation arrays in place and evaluates
+    # again with the same array objects
+    if case.get('variant') != 'int' and len(top) > 0:
+        t_obj, o_obj = top.copy(), obs.copy()
+        c_obj = None if cov is None else cov.copy()
+        _ll(m, spec, t_obj, o_obj, c_obj)
+        t_obj[-1] *= 1.02
+        k_free = [k_ for k_, kind in enumerate(rp.special(spec)) if kind is None]
+        if k_free:
+            o_obj[0, k_free[0]] *= 1.01
+        if c_obj is not None:
+            c_obj[0, 0] *= 0.9
+        e_m = float(np.real(rp.logpop(spec, t_obj.copy(), o_obj.copy(),
+                                      None if c_obj is None else c_obj.copy())))
+        g_m = _ll(m, spec, t_obj, o_obj, c_obj)
+        ntr += 2
+        if not tol.close(g_m, e_m):
+            viol.append({'sub': 'inplace', 'message': 'after the parameter / '
+                         'observation / covariate arrays were changed in place the '
+                         'log-likelihood evaluated with the same array objects is '
+                         'not the documented density at the new values (%s)' % lab,
+                         'expected': e_m, 'observed': g_m, 'behaviour': 'inplace'})
 
     elementary = spec['kind'] in ('G', 'LN', 'TG', 'P', 'H')
     d = rp.n_dim(spec)
